@@ -423,10 +423,12 @@ Proof.
 Qed.
 
 (* a configuration accepted by the command-line layer, seen by the builder: everything the builder checks
-   holds except possibly the bound on the initial sequence (which the command-line layer does not check) *)
+   holds except possibly the two checks on the initial sequence (its bound, and zero with Paris over IPv6),
+   which the command-line layer does not make *)
 Lemma cli_accept_builder tz a f p pid c tgt tid :
   build_config tz a f p pid = COk c -> args_in_range a -> file_in_range f -> u16 pid -> u16 tid ->
-  builder_accepts (start_tracer_cfg c tgt tid) = (tc_initial_sequence c <=? MAX_INITIAL_SEQUENCE) /\
+  builder_accepts (start_tracer_cfg c tgt tid) =
+    (tc_initial_sequence c <=? MAX_INITIAL_SEQUENCE) && negb (paris6_zero (start_tracer_cfg c tgt tid)) /\
   cfg_wf (start_tracer_cfg c tgt tid).
 Proof.
   intros H Ha [Hs Hr] Hpid Htid.
@@ -553,12 +555,12 @@ Qed.
 (* an accepted command line that also respects the builder's sequence bound runs without a fault *)
 Lemma cli_runs tz a f p pid c tgt tid t0 is :
   build_config tz a f p pid = COk c -> args_in_range a -> file_in_range f -> u16 pid -> u16 tid ->
-  tc_initial_sequence c <= MAX_INITIAL_SEQUENCE ->
+  tc_initial_sequence c <= MAX_INITIAL_SEQUENCE -> paris6_zero (start_tracer_cfg c tgt tid) = false ->
   let '(ev, o, sf) := run (start_tracer_cfg c tgt tid) t0 is in forall x, o <> Faulted x.
 Proof.
-  intros H Ha Hf Hp Ht Hs. destruct (cli_accept_builder _ _ _ _ _ _ tgt tid H Ha Hf Hp Ht) as [Hb Hw].
+  intros H Ha Hf Hp Ht Hs Hz. destruct (cli_accept_builder _ _ _ _ _ _ tgt tid H Ha Hf Hp Ht) as [Hb Hw].
   assert (Accept (start_tracer_cfg c tgt tid)) as HA.
-  { split; [|assumption]. rewrite Hb. apply Z.leb_le. assumption. }
+  { split; [|assumption]. rewrite Hb, Hz. cbn [negb]. rewrite Bool.andb_true_r. apply Z.leb_le. assumption. }
   pose proof (run_from_inv _ HA is _ (inv_new _ t0 HA)) as R. unfold run.
   destruct (run_from (start_tracer_cfg c tgt tid) (ts_new (start_tracer_cfg c tgt tid) t0) is) as [[ev o] sf].
   exact (proj2 R).
